@@ -169,12 +169,18 @@ Definition check_C10_inst (sc : scenario) (ins : list (N * input)) (sent : list 
         let sched_all := offer_schedule c ts d0 te in
         if existsb (N.eqb te) sched_all || (start_api_at ins te && stop_api_at ins te) then [] else
         let sched := filter (fun t => t <? te) sched_all in
+        (* another start/stop of this instance within one collection window of this interval's ends: the two
+           intervals' entries share datagrams, counts per interval are not judged *)
+        let crowded := existsb (fun iv2 => match snd iv2 with
+                                           | Some te2 => (te2 <=? ts) && (ts <=? te2 + t_collect c)
+                                           | None => false end
+                                           || ((te <=? fst iv2) && (fst iv2 <=? te + t_collect c))) ivs in
         let window_end := match te_o with Some _ => te + t_collect c | None => sc_end sc end in
         let offers := filter (fun x => (ts <=? st_time x) && (st_time x <=? window_end) && negb (e_ttl (st_entry x) =? 0)
                                        && dest_eq (st_dest x) None) mine in
         let sched_seen := filter (fun t => t + t_collect c <=? sc_end sc) sched in
         let offers_seen := firstn (length sched_seen) offers in
-        let c1 := if Nat.leb (length sched_seen) (length offers) && Nat.leb (length offers) (length sched)
+        let c1 := if crowded then [] else if Nat.leb (length sched_seen) (length offers) && Nat.leb (length offers) (length sched)
                      && forallb (fun p => (fst p <=? st_time (snd p)) && (st_time (snd p) <=? fst p + t_collect c))
                                 (combine sched_seen offers_seen) then [] else [1] in
         let c2 := if forallb (fun x => entry_ids_eqb (st_entry x) (create_offer_entry svc (t_announce_ttl c))) offers then [] else [2] in
@@ -183,6 +189,7 @@ Definition check_C10_inst (sc : scenario) (ins : list (N * input)) (sent : list 
         let c3 := match te_o with
                   | None => []
                   | Some _ =>
+                      if crowded then [] else
                       if te + t_collect c <? sc_end sc then
                         match sched with
                         | _ :: _ => if Nat.eqb (length stops) 1 then [] else [3]
@@ -192,12 +199,32 @@ Definition check_C10_inst (sc : scenario) (ins : list (N * input)) (sent : list 
                         end
                       else []
                   end in
-        (* silence: from the stop (plus the collection window) until the next start *)
+        (* silence: no offer with a non-zero TTL is SENT after the StopOffer was sent (trace order), until the next start.
+           An answer to a FindService that was QUEUED strictly before the stop and only left later because its
+           collection window closed after the StopOffer's is classified 15 (finding F15), everything else 5. *)
         let next_start := fold_left (fun acc iv2 => if (te <=? fst iv2) && (fst iv2 <? acc) then fst iv2 else acc) ivs (sc_end sc + 1) in
+        let is_stop (x : sent_t) := (te <=? st_time x) && (e_ttl (st_entry x) =? 0) && dest_eq (st_dest x) None in
+        let after_stop := (fix go (l : list sent_t) : list sent_t :=
+                             match l with [] => [] | x :: r => if is_stop x then r else go r end) mine in
+        let suffix := if existsb is_stop mine then after_stop else filter (fun x => te + t_collect c <? st_time x) mine in
+        let late := filter (fun x => (st_time x <? next_start) && negb (e_ttl (st_entry x) =? 0)) suffix in
+        let explained (x : sent_t) :=
+          negb (t_collect c =? 0) &&
+          match the_draw sc (t_rr_min c) (t_rr_max c) with
+          | None => false
+          | Some drr =>
+              existsb (fun p => match snd p with
+                                | IFind a e mc =>
+                                    let tq := fst p + (if mc then drr else 0) in
+                                    dest_eq (st_dest x) (Some a) && (tq <? te) && (tq <=? st_time x) && (st_time x <=? tq + t_collect c)
+                                    && match matches_find svc e with Ok true => true | _ => false end
+                                | _ => false
+                                end) ins
+          end in
         let c5 := match te_o with
                   | None => []
-                  | Some _ => if existsb (fun x => (te + t_collect c <? st_time x) && (st_time x <? next_start)
-                                                   && negb (e_ttl (st_entry x) =? 0)) mine then [5] else []
+                  | Some _ => (if existsb (fun x => negb (explained x)) late then [5] else [])
+                              ++ (if existsb explained late then [15] else [])
                   end in
         c1 ++ c2 ++ c3 ++ c5) ivs
   end.
